@@ -262,10 +262,10 @@ class C15(Prop):
                 return self.gen_op(rng, tr)
             pcol = rng.choice(pcols)
             aggs, an, at = self.gen_aggs(rng, tr, rng.choice([1, 1, 2]))
-            values = rng.choice([None, None, ['a'], ['b', 'a', 'zz'], []])
+            values = rng.choice([None, None, ['a'], ['b', 'a', 'zz'], [], ['a', None], [None]])
             pv = values if values is not None else ['?p']
             if len(aggs) == 1:
-                pn, pt = list(pv), [at[0]] * len(pv)
+                pn, pt = [str(p) for p in pv], [at[0]] * len(pv)
             else:
                 pn = ['%s_%s' % (p, n) for p in pv for n in an]
                 pt = [t for _ in pv for t in at]
@@ -320,11 +320,23 @@ class C15(Prop):
         names, rows = src['names'], src['rows']
         if not rows or rng.random() > .3:
             return src
-        via = rng.choice(['rows', 'hetero', 'hetero', 'names'])
+        via = rng.choice(['rows', 'hetero', 'hetero', 'names', 'ragged'])
+        if via == 'ragged':
+            # tuples of differing lengths (some lack trailing values): either no frame is obtained (an exception) or every
+            # Row has as many values as the frame has columns
+            if len(names) < 2 or len(rows) < 2 or any(all(r[j] is None for r in rows) for j in range(len(names))):
+                return src
+            short = [rng.choice([0, 0, 1]) for _ in rows]
+            short[rng.randrange(len(rows))] = 1
+            if all(short):
+                short[0] = 0
+            return dict(src, via='ragged', short=short, parts=1, withnames=rng.random() < .5, asrdd=rng.random() < .4)
         if via == 'names':
             if any(all(r[j] is None for r in rows) for j in range(len(names))):
                 return src                      # a column without any value: its type cannot be inferred (no frame is obtained)
             return dict(src, via='names')
+        if via == 'rows' and rng.random() < .4:
+            return dict(src, via='rows', explicit=True, parts=1)
         absent = [[j for j, v in enumerate(r) if v is None and via == 'hetero' and rng.random() < .7] for r in rows]
         absent = [ab if len(ab) < len(names) else ab[1:] for ab in absent]      # a Row keeps at least one field
         order = []
@@ -401,10 +413,19 @@ class C15(Prop):
         if t.get('via') in ('rows', 'hetero'):
             from pysparkling.sql.types import Row
             absent = t.get('absent') or [[] for _ in rows]
+            if t.get('explicit'):
+                # keyword-built Rows (fields sorted by name), each with one field more than the explicit schema has
+                return self.spark.createDataFrame([Row(zz_extra=7, **dict(zip(t['names'], r))) for r in rows],
+                                                  G.spark_schema(t['names'], t['types']))
             return self.spark.createDataFrame([Row(**{n: v for j, (n, v) in enumerate(zip(t['names'], r)) if j not in ab})
                                                for r, ab in zip(rows, absent)])
         if t.get('via') == 'names':
             return self.spark.createDataFrame([tuple(r) for r in rows], list(t['names']))
+        if t.get('via') == 'ragged':
+            data = [tuple(r[:len(r) - k]) for r, k in zip(rows, t['short'])]
+            if t.get('asrdd'):
+                data = self.sc.parallelize(data, 1)
+            return self.spark.createDataFrame(data, list(t['names'])) if t.get('withnames') else self.spark.createDataFrame(data)
         n = max(1, t.get('parts', 1))
         cuts = [len(rows) * i // n for i in range(n + 1)]
         layout = [rows[cuts[i]:cuts[i + 1]] for i in range(n)]
@@ -512,7 +533,14 @@ class C15(Prop):
                 df = self.make_df(src)
             prev = self.observe(df)
         except Exception as e:  # pylint: disable=broad-except
+            if src.get('via') == 'ragged':
+                ctx.note('source:ragged:refused')      # no DataFrame obtained
+                return None
             return Mismatch('creating the source DataFrame raised', exc(e), None, 'C15:source:exc')
+        if src.get('via') == 'ragged':
+            bad = self.direct(prev)
+            ctx.note('source:ragged:accepted')
+            return Mismatch('source (tuples of differing lengths): ' + bad, prev, None, 'C15:direct:source', relation='spec') if bad else None
         bad = self.direct(prev)
         if bad:
             return Mismatch('source: ' + bad, prev, None, 'C15:direct:source', relation='spec')
@@ -521,7 +549,13 @@ class C15(Prop):
             if r['names'] != prev['columns'] or rows_key(r['rows']) != rows_key(prev['rows']):
                 return Mismatch('range(): rows / names differ from the model', {'columns': prev['columns'], 'rows': prev['rows']},
                                 r, 'C15:model:range', relation='model-only')
-        if src.get('via') in ('rows', 'hetero'):
+        if src.get('via') == 'rows' and src.get('explicit'):
+            ctx.note('source:rows+schema')
+            if prev['columns'] != list(src['names']) or rows_key(prev['rows']) != rows_key(src['rows']):
+                return Mismatch('createDataFrame(keyword-built Rows with one more field, explicit schema): columns / rows differ '
+                                'from the table (values placed by field name)', {'columns': prev['columns'], 'rows': prev['rows']},
+                                {'columns': src['names'], 'rows': src['rows']}, 'C15:source:rows+schema', relation='spec')
+        elif src.get('via') in ('rows', 'hetero'):
             ctx.note('source:' + src['via'])
             absent = src.get('absent') or [[] for _ in src['rows']]
             # every Row in its own field order (Row(**kw) sorts its fields by name) with the fields it really has
@@ -567,6 +601,25 @@ class C15(Prop):
                         return Mismatch('step %d sample: the result is not an order-preserving sub-list of the input' % step,
                                         cur['rows'], prev['rows'], 'C15:model:sample', relation='model-only')
                     mop = {'op': 'sample', 'keep': keep}
+            if k == 'pivot' and op.get('values') and any(v is None for v in op['values']):
+                # a null among the given pivot values (legal; its column collects the rows whose pivot column is null): the
+                # model's pivot values are strings, so only the property itself is checked on the real frame
+                ctx.note('pivot-null-value-not-modelled')
+                if err is not None:
+                    # (is it the operation as such that is refused - an unknown key or pivot column?)
+                    r = ctx.driver.ask({'p': 'C15', 'names': prev['columns'], 'rows': prev['rows'],
+                                        'op': dict(mop, values=[v for v in op['values'] if v is not None])})
+                    if 'refused' in r:
+                        ctx.note('refused:' + r['refused'])
+                        return None
+                    return Mismatch('step %d pivot with a null among the values raised' % step, err, None, 'C15:pivot-null:exc', relation='spec')
+                bad = self.direct(cur)
+                if bad:
+                    return Mismatch('step %d after %s: %s' % (step, k, bad),
+                                    {'columns': cur['columns'], 'schema': cur['schema'], 'fields': cur['fields'][:3], 'lens': cur['lens'][:6]},
+                                    None, 'C15:direct:' + k, relation='spec')
+                df, prev = ndf, cur
+                continue
             r = ctx.driver.ask({'p': 'C15', 'names': prev['columns'], 'rows': prev['rows'], 'op': mop})
             if err is not None:
                 if 'refused' in r:
